@@ -20,7 +20,7 @@ import (
 // point.
 
 type layIns struct {
-	T      int // template index: 11 nop, 9 jal +4, 18 j T, 16 bltu T, 17 jr
+	T      int // template index: nop, jal +4, j T, bltu T, bgeu T, jr
 	Addr   uint64
 	Target uint64
 }
@@ -35,7 +35,7 @@ func (l codeLayout) String() string {
 	var ps []string
 	for _, i := range l.Ins {
 		s := fmt.Sprintf("%x:%s", i.Addr, strings.Fields(al[i.T].Name)[0])
-		if i.T == 18 || i.T == 16 {
+		if al[i.T].Name == "j T" || al[i.T].Name == "bltu x1,x2,T" || al[i.T].Name == "bgeu x1,x2,T" {
 			s += fmt.Sprintf("->%x", i.Target)
 		}
 		ps = append(ps, s)
@@ -44,7 +44,7 @@ func (l codeLayout) String() string {
 }
 
 func layoutCorpus(tier string, seed int64) []codeLayout {
-	kinds := []int{11, 9, 18, 16, 17}
+	kinds := tixs("nop", "jal x1,+4", "j T", "bltu x1,x2,T", "bgeu x1,x2,T", "jr x1")
 	var out []codeLayout
 	out = append(out, codeLayout{Entry: 0x1000}) // no instructions at all
 	rng := rand.New(rand.NewSource(seed*977 + 3))
@@ -114,7 +114,7 @@ func layoutCorpus(tier string, seed int64) []codeLayout {
 		ks := make([]int, n)
 		for k := range ks {
 			if rng.Intn(2) == 0 {
-				ks[k] = 11
+				ks[k] = tix("nop")
 			} else {
 				ks[k] = kinds[rng.Intn(len(kinds))]
 			}
@@ -135,13 +135,13 @@ func specPartition(l codeLayout) ([][]uint64, string) {
 	// real jump targets: possible targets other than the next instruction
 	realJump := func(i layIns) (bool, []uint64) {
 		end := i.Addr + 4
-		switch i.T {
-		case 18, 16: // j T ; bltu T (else next)
+		switch insAlphabet()[i.T].Name {
+		case "j T", "bltu x1,x2,T", "bgeu x1,x2,T": // T, or (branches) the next instruction
 			if i.Target != end {
 				return true, []uint64{i.Target}
 			}
 			return false, nil
-		case 17: // jr: unknown target
+		case "jr x1": // unknown target
 			return true, nil
 		}
 		return false, nil
